@@ -36,10 +36,9 @@ func subset(a, b []string) bool {
 	return true
 }
 
-func (c Cfg) same(d Cfg) bool {
+func cfgKey(c Cfg) string {
 	a, _ := json.Marshal(c)
-	b, _ := json.Marshal(d)
-	return string(a) == string(b)
+	return string(a)
 }
 
 // ReplayAll executes every group against the real code (in parallel, order
@@ -50,8 +49,10 @@ func ReplayAll(c *core.Ctx, groups []*Group) *Stats {
 	st.Groups = int64(len(groups))
 	order := c.Rand("c03-order").Perm(len(groups))
 	index := map[string]*Group{}
+	byCfg := map[string][]*Group{}
 	for _, g := range groups {
 		index[g.Key()] = g
+		byCfg[cfgKey(g.Cfg)] = append(byCfg[cfgKey(g.Cfg)], g)
 	}
 	lookup := func(cf Cfg, devs []string) *Group {
 		return index[(&Group{Cfg: cf, Devs: devs}).Key()]
@@ -112,16 +113,8 @@ func ReplayAll(c *core.Ctx, groups []*Group) *Stats {
 			c.Broken("non-reproducible difference for %s: %v, then %v", g.Key(), d, d2)
 			return
 		}
-		// the replay file carries the scenario and the scenarios it degenerates to when
-		// the peer does not get to use a switch
-		var related []*Group
-		for _, og := range groups {
-			if og != g && og.Cfg.same(g.Cfg) && subset(og.Devs, g.Devs) {
-				related = append(related, og)
-			}
-		}
 		mu.Lock()
-		fails = append(fails, failure{g, d, o, g.Key(), related})
+		fails = append(fails, failure{g, d, o, g.Key(), nil})
 		mu.Unlock()
 	})
 	c.Add("traces_validated_against_impl", conform)
@@ -166,6 +159,13 @@ func ReplayAll(c *core.Ctx, groups []*Group) *Stats {
 		seen[k]++
 		if seen[k] > 1 {
 			continue
+		}
+		// the replay file carries the scenario and the scenarios it degenerates to when
+		// the peer does not get to use a switch
+		for _, og := range byCfg[cfgKey(f.g.Cfg)] {
+			if og != f.g && subset(og.Devs, f.g.Devs) {
+				f.rel = append(f.rel, og)
+			}
 		}
 		c.Fail(core.Failure{Signature: sig, Detail: f.d.Detail,
 			Scenario: map[string]any{"kind": "HandshakeEvil", "group": f.g, "related": f.rel, "observed": f.o}})
